@@ -19,7 +19,7 @@ from common import Stream, budget, rng_for, to_gq, show, from_gq, canon_op_json
 TRUSTED = [
     'C19: numpy.log2 / math.log(x, 2) / floor / ceil on the generated inputs (eps * n = 2^-k with k <= 28, L/M < 2^40) are exact or decided with margin; the Model uses exact integer arithmetic',
     'C19: the number of rotation bits br of compute_cost / cost_sparse (arg-min of an arccos/sin expression) is a parameter of the Model observed from the implementation (verbose output, resp. solved from the ancilla count); np.pi * lam / (2 dE) is decided with the rational enclosure 3.14159265358 < pi < 3.14159265360 (cases it does not decide are discarded and counted)',
-    'C19: cost_estimator (surface-code physical costing): the failure probabilities involve irrational powers (0.1 ** 1.5) and have no Model — which candidates pass the `failure <= 0.1` filter is observed from the implementation and handed to the Model of the selection loop; everything else (factory dimensions, footprints, rounds, storage area, qubit counts, selection) is modelled in exact integer / rational arithmetic (Model/C19Phys.lean) and compared on every candidate',
+    'C19: cost_estimator (surface-code physical costing): the failure probabilities involve irrational powers (0.1 ** 1.5) and have no Model — they are recomputed independently in the harness (plain floats from the published formulas, compared to 1e-9 relative on every candidate) and the resulting `failure <= 0.1` flags are handed to the Model of the selection loop (cases with a probability within 1e-9 of the threshold are discarded); everything else (factory dimensions, footprints, rounds, storage area, qubit counts, selection) is modelled in exact integer / rational arithmetic (Model/C19Phys.lean) and compared on every candidate',
 ]
 ASSUMPTIONS = [
     'LCU coefficients are non-negative dyadic floats with a positive sum, 0 < epsilon < 1 dyadic; alias-table weights are non-negative integers whose sum is a multiple of their number',
@@ -31,7 +31,7 @@ OPEN_STATEMENTS = [
     'one_norm_spec (get_one_norm_int(_woconst) = 1-norm of the Jordan-Wigner coefficients for eight-fold symmetric integrals): open as a theorem — pauli_decomposition_unique reduces it to reading off the coefficients of the Model image jwInteractionOp of the spin-orbital Hamiltonian (identity, Z, ZZ, hopping strings with and without an extra / missing Z, four-letter strings, with all index coincidences), which is not done. PROVED: one_norm_spec_partial — for every n, real symmetric h and Coulomb-type two-body integrals (g_pqrs = 0 unless s = p and r = q, g_pqqp = g_qppq; contains g = 0) the Model of get_one_norm_int_woconst equals the Spec oracle jwOneNorm of molOp (hypothesis: exact-run flag of the Model transform, evaluated by the driver op c19.spec.mol_coulomb on every generated Coulomb-type case); MISSING: exchange-type g_pqpq / g_ppqq (their opposite-spin parts are genuine four-index terms: per orbital pair the surviving Pauli words are XYYX, YXXY, XXYY, YYXX on the four spin orbitals with coefficient +-K/4 — reading them off needs the coefficients of the four-distinct-index branch of jordan_wigner_two_body, not done) and general three- / four-index integrals. Also proved (one_norm_identity_coefficient, all integrals, no symmetry): the identity coefficient Tr(H)/4^n of the Spec operator molOp is htilde, and get_one_norm_int = |htilde| + get_one_norm_int_woconst, i.e. _woconst drops exactly the identity term (also evaluated by the driver: c19.spec.identity_coef, c19.spec.mol_op). The non-identity part is checked exactly by the Spec oracle jwOneNorm (Pauli decomposition from the Spec ladder action on all Fock states) for n_orb <= 2 (3 on a sample).',
     'mu: the Model computes the least mu with eps*n*2^mu >= 1 and that minimality is a theorem (sub_bit_precision_spec); the implementation returns mu+1 for eps*n = 2^-k with k in {29, 31, 39, 47, 51, 55, 58, 59, 62} because math.log(x, 2) is inexact there (not a violation of the property; such inputs are not generated).',
     'cost functions: PROVED beyond total = step x iterations: cost_sparse has a positive per-step cost for all parameters and its total is monotone in lam and 1/dE (sparse_total_monotone); compute_cost: per-step cost independent of lam, dE and total monotone when the per-step cost is non-negative (thc_total_monotone); QR2 / QI2 minimise over ALL k1, k2 >= 1 for table sizes <= 2^16 (qr2_global_minimiser, qi2_global_minimiser; larger tables: searched grid only).',
-    'compute_cost / cost_sparse: the number of rotation bits br (arg-min of an arccos/sin expression) and np.pi are outside the theorems (parameters / rational enclosure); the ancilla counts are covered by correspondence only. cost_estimator: Model for all its integer / rational arithmetic and theorem cost_estimator_select_spec for the selection loop (first strict minimum among the feasible layouts); the failure-probability filter (irrational powers) is outside the Model (observed), and no optimality statement beyond the searched grid is made.',
+    'compute_cost / cost_sparse: the number of rotation bits br (arg-min of an arccos/sin expression) and np.pi are outside the theorems (parameters / rational enclosure); the ancilla counts are covered by correspondence only. cost_estimator: Model for all its integer / rational arithmetic and theorem cost_estimator_select_spec for the selection loop (first strict minimum among the feasible layouts); the failure probabilities (irrational powers) are outside the Lean Model — checked against an independent float evaluation in the harness — and no optimality statement beyond the searched grid is made.',
 ]
 
 
@@ -1034,14 +1034,53 @@ def stream_costs(ctx, thc_cost, sparse_cost):
     return s
 
 
+# ---- independent float evaluation of the failure model of physical_costing.py (formulas of the module docstrings /
+# arXiv:1808.06709, 1905.06903), NOT calling the helpers of the module
+
+def topo_cell(dist, p_err):
+    return 0.1 * (100 * p_err) ** ((dist + 1) / 2)
+
+
+def autoccz_error(l1, l2, p_err):
+    l0_total = p_err + 100 * topo_cell(l1 // 2, p_err)
+    l1_total = 35 * l0_total ** 3 + 1100 * topo_cell(l1, p_err)
+    return 1000 * topo_cell(l2, p_err) + 28 * l1_total ** 2
+
+
+def factory_specs(p_err):
+    """(l1, l2) of every factory of iter_known_factories(p_err), (0, 0) for the two-level T factory"""
+    specs = [(0, 0)] if p_err == 0.001 else []
+    return specs + [(l1, l2) for l1 in range(5, 25, 2) for l2 in range(l1 + 2, 41, 2)]
+
+
+def factory_failure(spec, p_err):
+    return 4 * 9 * 10 ** -17 if tuple(spec) == (0, 0) else autoccz_error(spec[0], spec[1], p_err)
+
+
+def failure(nq, nt, dist, spec, f_rounds, p_err, portion, routing, fcount):
+    import math
+    storage = int(math.ceil(nq * (1 + routing)))
+    rounds = int(nt / fcount * f_rounds)
+    data = portion * topo_cell(dist, p_err) * storage * rounds
+    return min(1.0, data + factory_failure(spec, p_err) * nt)
+
+
+def rel_close(x, y):
+    return x == y or abs(x - y) <= 1e-9 * max(abs(x), abs(y))
+
+
 def stream_physical(ctx, pc):
     s = Stream('physical-costing', 'deterministic arithmetic of physical_costing.py against the Model (C19Phys): '
                '_autoccz_factory_dimensions on all 125 distance pairs of the loop (width, height; depth x l2 = rounds) and the '
                'factory table of iter_known_factories (footprint, rounds) compared exactly; cost_estimator on the Toffoli / qubit '
                'counts of the repository tests and random ones (Python and numpy integers): physical qubit count and rounds of '
                'EVERY candidate layout (126 factories x 14 code distances) compared exactly with the Model, the feasibility of '
-               'every candidate (failure probability <= 0.1: irrational powers, no Model) observed and handed to the Model, the '
-               'selected layout compared with the Model selection loop; Spec: the returned layout is the first strict minimum '
+               'every candidate decided by an INDEPENDENT float evaluation of the failure model in the harness (topological error per '
+               'unit cell, distillation error of the AutoCCZ / T factories, data failure; compared with the implementation to 1e-9 '
+               'relative, counted as float comparisons) and handed to the Model, the selected layout compared with the Model '
+               'selection loop; every crossing of physical_error_rate in {1e-3, 1e-4, 3e-3, 5e-4} x portion_of_bounding_box in '
+               '{1, 0.5, 0.25, 2} (positional and keyword), direct AlgorithmParameters.estimate_cost calls with other routing '
+               'overheads / factory counts; Spec: the returned layout is the first strict minimum '
                'of qubits x duration among the feasible ones; non-trivial = every case')
     rng = rng_for(ctx.seed, 'c19-phys')
     harden(s, rng_for(ctx.seed, 'c19-phys-state'), rate_for(ctx))
@@ -1084,44 +1123,84 @@ def stream_physical(ctx, pc):
     b.items = other_items
     b.flush()
     dists = list(range(7, 35, 2))
-    # num_toffoli = 0: every candidate costs 0 rounds, so the tie rule of the loop (first minimum) decides
-    cases = [(2142, 5250145120), (2196, 31938980976), (2190, 88371052334), (1, 1), (3, 7), (5, 0), (100, 0)]
-    for _ in range(budget(t, 5, 40)):
-        cases.append((rng.randint(100, 5000), rng.randint(10 ** 6, 10 ** 11)))
-    for nq, nt in cases:
-        kind = rng.choice(['int', 'int', 'int64'])
+
+    def close(x, y):
+        s.float_comparisons += 1
+        return rel_close(x, y)
+
+    def failure(nq, nt, dist, spec, f_rounds, p_err, portion, routing, fcount):
+        import math
+        storage = int(math.ceil(nq * (1 + routing)))
+        rounds = int(nt / fcount * f_rounds)
+        data = portion * topo_cell(dist, p_err) * storage * rounds
+        return min(1.0, data + factory_failure(spec, p_err) * nt)
+
+    def one_estimator(nq, nt, p_err, portion, kind):
+        """cost_estimator(nq, nt, p_err, portion): every candidate against the Model (integers) and the independent
+        failure model (floats), selection through the Model fed with the independently computed feasibility flags"""
         a_nq, a_nt = (numpy.int64(nq), numpy.int64(nt)) if kind == 'int64' else (nq, nt)
-        (res, exc) = call(pc.cost_estimator, a_nq, a_nt)
-        case = {'fn': 'cost_estimator', 'num_logical_qubits': nq, 'num_toffoli': nt, 'argument_types': kind}
+        if kind == 'defaults':
+            (res, exc) = call(pc.cost_estimator, a_nq, a_nt)
+        elif kind == 'keywords':
+            (res, exc) = call(pc.cost_estimator, a_nq, a_nt, physical_error_rate=p_err, portion_of_bounding_box=portion)
+        else:
+            (res, exc) = call(pc.cost_estimator, a_nq, a_nt, p_err, portion)
+        case = {'fn': 'cost_estimator', 'num_logical_qubits': nq, 'num_toffoli': nt, 'physical_error_rate': p_err,
+                'portion_of_bounding_box': portion, 'argument_types': kind}
         s.case(case)
         s.count('cost_estimator')
         s.count('argument_types=' + kind)
+        s.count('physical_error_rate=%g' % p_err)
+        s.count('portion_of_bounding_box=%g' % portion)
         if exc:
             s.violate('unexpected exception ' + exc, case, {})
-            continue
+            return
         best, params = res
-        # every candidate of the searched grid, evaluated by the implementation itself
-        cands, feas, best_idx = [], [], None
+        specs = factory_specs(p_err)
+        facs_p, exc = call(lambda: list(pc.iter_known_factories(physical_error_rate=p_err)))
+        if exc or len(facs_p) != len(specs):
+            s.violate('iter_known_factories(%g): %s' % (p_err, exc or 'unexpected number of factories'), case, {})
+            return
+        for spec, fac in zip(specs, facs_p):
+            if not close(float(fac.failure_rate), factory_failure(spec, p_err)):
+                s.violate('factory failure rate differs from the independent evaluation of the distillation error model',
+                          dict(case, factory=list(spec)), {'implementation': float(fac.failure_rate),
+                                                           'independent': factory_failure(spec, p_err)})
+                return
+        cands, feas, best_idx, ambiguous = [], [], None, False
         try:
-            for fi, fac in enumerate(facs):
+            for spec, fac in zip(specs, facs_p):
                 for dist in dists:
-                    p_ = pc.AlgorithmParameters(physical_error_rate=1.0e-3,
+                    p_ = pc.AlgorithmParameters(physical_error_rate=p_err,
                                                 surface_code_cycle_time=datetime.timedelta(microseconds=1),
                                                 logical_data_qubit_distance=dist, magic_state_factory=fac, toffoli_count=nt,
                                                 max_allocated_logical_qubits=nq, factory_count=4,
-                                                routing_overhead_proportion=0.5, proportion_of_bounding_box=1.0)
+                                                routing_overhead_proportion=0.5, proportion_of_bounding_box=portion)
                     c = p_.estimate_cost()
                     us = c.duration // datetime.timedelta(microseconds=1)
                     if c.duration != datetime.timedelta(microseconds=us):
                         raise ValueError('duration is not a whole number of cycles')
+                    mine = failure(nq, nt, dist, spec, float(fac.rounds), p_err, portion, 0.5, 4)
+                    if not close(float(c.algorithm_failure_probability), mine):
+                        s.violate('estimate_cost: algorithm_failure_probability differs from the independent evaluation '
+                                  '(topological error per unit cell x storage x rounds x bounding box + distillation failure)',
+                                  dict(case, factory=list(spec), logical_data_qubit_distance=dist),
+                                  {'implementation': float(c.algorithm_failure_probability), 'independent': mine})
+                        return
+                    if abs(mine - 0.1) <= 1e-9:
+                        ambiguous = True
                     if params is not None and fac == params.magic_state_factory and dist == params.logical_data_qubit_distance \
                             and best_idx is None:
                         best_idx = len(cands)
                     cands.append([int(c.physical_qubit_count), int(us)])
-                    feas.append(bool(c.algorithm_failure_probability <= 0.1))
+                    feas.append(bool(mine <= 0.1))
         except Exception as e:  # noqa: BLE001
             s.violate('estimate_cost failed on a candidate: ' + type(e).__name__, case, {})
-            continue
+            return
+        if ambiguous:
+            s.discards += 1
+            s.count('failure-probability-at-threshold')
+            return
         if best is None:
             s.count('no-feasible-layout')
             impl_best = None
@@ -1130,10 +1209,72 @@ def stream_physical(ctx, pc):
             impl_best = [best_idx, int(best.physical_qubit_count), int(us)]
             if best_idx is None or best.duration != datetime.timedelta(microseconds=us):
                 s.violate('cost_estimator: the returned parameters are not one of the candidates of the searched grid', case, {})
-                continue
-        b.add(case, {'cands': cands, 'best': impl_best}, {'op': 'c19.phys.select', 'nq': nq, 'nt': nt, 'feasible': feas},
+                return
+            if params.physical_error_rate != p_err or params.proportion_of_bounding_box != portion:
+                s.violate('cost_estimator: the returned parameters do not carry the requested error rate / bounding box', case,
+                          {'physical_error_rate': params.physical_error_rate,
+                           'proportion_of_bounding_box': params.proportion_of_bounding_box})
+                return
+        b.add(case, {'cands': cands, 'best': impl_best},
+              {'op': 'c19.phys.select', 'nq': nq, 'nt': nt, 'feasible': feas, 'with_t': p_err == 0.001},
               [('cost_estimator: the returned layout is not the first strict minimum of qubits x duration among the '
-                'feasible candidates', {'op': 'c19.spec.select', 'cands': cands, 'feasible': feas, 'res': impl_best}, is_true)])
+                'candidates that are feasible according to the independent failure model',
+                {'op': 'c19.spec.select', 'cands': cands, 'feasible': feas, 'res': impl_best}, is_true)])
+    # num_toffoli = 0: every candidate costs 0 rounds, so the tie rule of the loop (first minimum) decides
+    cases = [(2142, 5250145120), (2196, 31938980976), (2190, 88371052334), (1, 1), (3, 7), (5, 0), (100, 0)]
+    for _ in range(budget(t, 3, 30)):
+        cases.append((rng.randint(100, 5000), rng.randint(10 ** 6, 10 ** 11)))
+    for nq, nt in cases:
+        one_estimator(nq, nt, 1.0e-3, 1.0, rng.choice(['defaults', 'defaults', 'int64', 'positional', 'keywords']))
+    # every crossing of the two optional arguments (both non-default at once included)
+    rates = [1.0e-3, 1.0e-4, 3.0e-3, 5.0e-4]
+    portions = [1.0, 0.5, 0.25, 2.0]
+    sizes = [(2142, 5250145120), (300, 10 ** 7), (4000, 10 ** 10)]
+    for p_err in rates:
+        for portion in portions:
+            picks = sizes if t == 'thorough' else [sizes[rng.randrange(len(sizes))],
+                                                   (rng.randint(100, 5000), rng.randint(10 ** 6, 10 ** 11))]
+            for nq, nt in picks:
+                one_estimator(nq, nt, p_err, portion, rng.choice(['positional', 'keywords']))
+    b.flush()
+    # direct AlgorithmParameters(...).estimate_cost calls: routing overhead, factory count, bounding box, error rate
+    for _ in range(budget(t, 150, 800)):
+        p_err = rng.choice(rates)
+        portion = rng.choice(portions)
+        routing = rng.choice([0.5, 0.25, 1.0, 0.0, 0.75])
+        fcount = rng.choice([1, 2, 4, 8])
+        specs = factory_specs(p_err)
+        si = rng.randrange(len(specs))
+        spec = specs[si]
+        dist = rng.choice(dists + [3, 5, 41])
+        nq, nt = rng.randint(1, 5000), rng.choice([0, rng.randint(1, 10 ** 4), rng.randint(10 ** 6, 10 ** 11)])
+        case = {'fn': 'AlgorithmParameters.estimate_cost', 'physical_error_rate': p_err, 'proportion_of_bounding_box': portion,
+                'routing_overhead_proportion': routing, 'factory_count': fcount, 'factory': list(spec),
+                'logical_data_qubit_distance': dist, 'max_allocated_logical_qubits': nq, 'toffoli_count': nt}
+        s.case(case)
+        s.count('estimate_cost:direct')
+
+        def direct():
+            fac = list(pc.iter_known_factories(physical_error_rate=p_err))[si]
+            p_ = pc.AlgorithmParameters(physical_error_rate=p_err, surface_code_cycle_time=datetime.timedelta(microseconds=1),
+                                        logical_data_qubit_distance=dist, magic_state_factory=fac, toffoli_count=nt,
+                                        max_allocated_logical_qubits=nq, factory_count=fcount,
+                                        routing_overhead_proportion=routing, proportion_of_bounding_box=portion)
+            return fac, p_.estimate_cost()
+        res, exc = call(direct)
+        if exc:
+            s.violate('unexpected exception ' + exc, case, {})
+            continue
+        fac, c = res
+        us = c.duration // datetime.timedelta(microseconds=1)
+        mine = failure(nq, nt, dist, spec, float(fac.rounds), p_err, portion, routing, fcount)
+        if not close(float(c.algorithm_failure_probability), mine):
+            s.violate('estimate_cost: algorithm_failure_probability differs from the independent evaluation', case,
+                      {'implementation': float(c.algorithm_failure_probability), 'independent': mine})
+            continue
+        b.add(case, [int(c.physical_qubit_count), int(us)],
+              {'op': 'c19.phys.estimate', 'l1': spec[0], 'l2': spec[1], 'nq': nq, 'nt': nt, 'dist': dist,
+               'routing': fr(routing), 'fcount': fcount})
     b.flush()
     return s
 
@@ -1209,25 +1350,55 @@ def replay(ctx, payload):
                 lam, dE = pr[1], pr[3]
             it = d.one({'op': 'c19.iters', 'lam': fr(lam), 'dE': fr(dE)})
             return it is not None and res[1] == res[0] * it
-        if fn == 'cost_estimator':
+        if fn in ('cost_estimator', 'AlgorithmParameters.estimate_cost'):
             import datetime
             pc = importlib.import_module('openfermion.resource_estimates.surface_code_compilation.physical_costing')
+            p_err = case.get('physical_error_rate', 1.0e-3)
+            portion = case.get('portion_of_bounding_box', case.get('proportion_of_bounding_box', 1.0))
+            specs = factory_specs(p_err)
+            facs = list(pc.iter_known_factories(physical_error_rate=p_err))
+            if len(facs) != len(specs):
+                return False
+
+            def est(nq, nt, dist, fac, routing, fcount):
+                p_ = pc.AlgorithmParameters(physical_error_rate=p_err,
+                                            surface_code_cycle_time=datetime.timedelta(microseconds=1),
+                                            logical_data_qubit_distance=dist, magic_state_factory=fac, toffoli_count=nt,
+                                            max_allocated_logical_qubits=nq, factory_count=fcount,
+                                            routing_overhead_proportion=routing, proportion_of_bounding_box=portion)
+                return p_.estimate_cost()
+            if fn == 'AlgorithmParameters.estimate_cost':
+                spec = tuple(case['factory'])
+                fac = facs[specs.index(spec)]
+                nq, nt = case['max_allocated_logical_qubits'], case['toffoli_count']
+                c = est(nq, nt, case['logical_data_qubit_distance'], fac, case['routing_overhead_proportion'],
+                        case['factory_count'])
+                mine = failure(nq, nt, case['logical_data_qubit_distance'], spec, float(fac.rounds), p_err, portion,
+                               case['routing_overhead_proportion'], case['factory_count'])
+                m = d.one({'op': 'c19.phys.estimate', 'l1': spec[0], 'l2': spec[1], 'nq': nq, 'nt': nt,
+                           'dist': case['logical_data_qubit_distance'], 'routing': fr(case['routing_overhead_proportion']),
+                           'fcount': case['factory_count']})
+                return rel_close(float(c.algorithm_failure_probability), mine) and \
+                    m == [int(c.physical_qubit_count), int(c.duration // datetime.timedelta(microseconds=1))]
             nq, nt = case['num_logical_qubits'], case['num_toffoli']
-            best, params = pc.cost_estimator(nq, nt)
+            best, params = pc.cost_estimator(nq, nt, p_err, portion)
             cands, feas, best_idx = [], [], None
-            for fac in pc.iter_known_factories(physical_error_rate=1.0e-3):
+            for spec, fac in zip(specs, facs):
+                if not rel_close(float(fac.failure_rate), factory_failure(spec, p_err)):
+                    return False
                 for dist in range(7, 35, 2):
-                    p_ = pc.AlgorithmParameters(physical_error_rate=1.0e-3,
-                                                surface_code_cycle_time=datetime.timedelta(microseconds=1),
-                                                logical_data_qubit_distance=dist, magic_state_factory=fac, toffoli_count=nt,
-                                                max_allocated_logical_qubits=nq, factory_count=4,
-                                                routing_overhead_proportion=0.5, proportion_of_bounding_box=1.0)
-                    c = p_.estimate_cost()
+                    c = est(nq, nt, dist, fac, 0.5, 4)
+                    mine = failure(nq, nt, dist, spec, float(fac.rounds), p_err, portion, 0.5, 4)
+                    if not rel_close(float(c.algorithm_failure_probability), mine):
+                        return False
                     if params is not None and fac == params.magic_state_factory \
                             and dist == params.logical_data_qubit_distance and best_idx is None:
                         best_idx = len(cands)
                     cands.append([int(c.physical_qubit_count), int(c.duration // datetime.timedelta(microseconds=1))])
-                    feas.append(bool(c.algorithm_failure_probability <= 0.1))
+                    feas.append(bool(mine <= 0.1))
+            if best is not None and (params.physical_error_rate != p_err or params.proportion_of_bounding_box != portion
+                                     or best_idx is None):
+                return False
             res = None if best is None else [best_idx, int(best.physical_qubit_count),
                                              int(best.duration // datetime.timedelta(microseconds=1))]
             return d.one({'op': 'c19.spec.select', 'cands': cands, 'feasible': feas, 'res': res}) is True
